@@ -235,7 +235,7 @@ func genMeta(r *hlib.Rand) *MetaSpec {
 	case 5:
 		m.Units = append(m.Units, m.Units[1])
 	case 6:
-		m.Name = hx(pick(r, "", " ", " "))
+		m.Name = hx(pick(r, "", " ", "\u00a0"))
 	case 7:
 		m.Symbol = hx(pick(r, "", "\t"))
 	case 8:
@@ -265,7 +265,7 @@ func genContract(r *hlib.Rand) string {
 
 func genNum(r *hlib.Rand, base int) string {
 	if r.Chance(1, 5) {
-		return hx(pick(r, "", "0", "-1", "+5", "1_000", "0x10", " 7", "7 ", "1e3", "12345678901234567890123456789012345678901234567890123456789012345678901234567890", "٣"))
+		return hx(pick(r, "", "0", "-1", "+5", "1_000", "0x10", " 7", "7 ", "1e3", "12345678901234567890123456789012345678901234567890123456789012345678901234567890", "\u0663"))
 	}
 	return hx([]string{"1", "10", "100", "1000", "115792089237316195423570985008687907853269984665640564039457584007913129639936"}[(base+r.Intn(2))%5])
 }
